@@ -288,7 +288,7 @@ func genSelMatchers(r *vk.RNG, n int) []selMatcher {
 				v += "x"
 			}
 		} else {
-			v = vk.Pick(r, []string{"web|api", "p1", "p.*", "prod", "pro", ".*", ".+", "x?", "(web|db)2?", "[a-z]+", "p1|p2", "dev|", "(?i)PROD"})
+			v = vk.Pick(r, []string{"web|api", "p1", "p.*", "prod", "pro", ".*", ".+", "x?", "(web|db)2?", "[a-z]+", "p1|p2", "dev|", "(?i)PROD", "^we|b2$", "^web$", "^p|0$", "^pro|ev$", "(?i)web", "(?i)P1"})
 		}
 		ms = append(ms, selMatcher{Label: lbl, Op: op, OpS: opText(op), Value: v})
 	}
@@ -352,7 +352,7 @@ func genLeafPred(r *vk.RNG, d *Dataset) *Pred {
 		if op == "=" || op == "!=" {
 			v = vk.Pick(r, []string{"web", "prod", "p1", "info", "error", "alice", "al", "", "200", "GET", "10.0.0.5", "true"})
 		} else {
-			v = vk.Pick(r, []string{"web|api", "err.*", "(?i)error", "al", "al.*", ".*", ".+", "x?", "[0-9]+", "4..|5..", "p1|p2", "GET|PUT"})
+			v = vk.Pick(r, []string{"web|api", "err.*", "(?i)error", "al", "al.*", ".*", ".+", "x?", "[0-9]+", "4..|5..", "p1|p2", "GET|PUT", "^al|ce$", "^err|fo$", "(?i)ALICE", "(?i)info", "^2|4$", "^GET$"})
 		}
 		return &Pred{Kind: "str", Label: lbl, Op: op, Val: v}
 	case 3, 4:
